@@ -1,7 +1,7 @@
 (* C01 — composition of the three parts: framing (Framing.v), header parsing (HdrProofs.v),
    the helper fold (HelperProofs.v). *)
 From Coq Require Import List NArith Bool Arith Lia.
-From Baize Require Import Lib.Wire Lib.Order C01.Model C01.Spec C01.Framing C01.HdrProofs C01.HelperProofs.
+From Baize Require Import Lib.Wire Lib.Order Lib.Utf8 C01.Model C01.Spec C01.Utf8Proofs C01.Framing C01.HdrProofs C01.HelperProofs.
 Import ListNotations.
 
 Lemma wf_form_parts b utf8 pre fc ps : wf_form b utf8 pre fc ps = true -> forallb (part_ok b utf8) ps = true.
@@ -87,25 +87,210 @@ Proof.
   unfold field_event, rendered_event. destruct (f_filename f); reflexivity.
 Qed.
 
+(* ---------- names, filenames and header values as text ---------- *)
+
+Lemma tfield_ok_parts b f : tfield_ok b f = true ->
+  tname_ok (t_name f) = true /\ tfilename_ok (t_filename f) = true /\ forallb textra_ok (t_extra f) = true /\
+  has_sub (dashes b) (t_content f) = false.
+Proof.
+  unfold tfield_ok. intros H. apply andb_true_iff in H as [H H4]. apply andb_true_iff in H as [H H3].
+  apply andb_true_iff in H as [H1 H2]. apply negb_true_iff in H4. repeat split; assumption.
+Qed.
+
+Lemma encode_field_inv utf8 tf f : encode_field utf8 tf = Some f ->
+  encode_text utf8 (t_name tf) = Some (f_name f) /\ encode_opt utf8 (t_filename tf) = Some (f_filename f) /\
+  encode_extra utf8 (t_extra tf) = Some (f_extra f) /\ f_content f = t_content tf.
+Proof.
+  unfold encode_field.
+  destruct (encode_text utf8 (t_name tf)) as [n|]; [|discriminate].
+  destruct (encode_opt utf8 (t_filename tf)) as [fn|]; [|discriminate].
+  destruct (encode_extra utf8 (t_extra tf)) as [e|]; [|discriminate].
+  intros H. injection H as <-. cbn. auto.
+Qed.
+
+Lemma encode_opt_none utf8 (o : option (list N)) fb : encode_opt utf8 o = Some fb ->
+  match o, fb with None, None => True | Some _, Some _ => True | _, _ => False end.
+Proof.
+  destruct o as [s|]; cbn [encode_opt].
+  - destruct (encode_text utf8 s); [|discriminate]. intros H. injection H as <-. exact Logic.I.
+  - intros H. injection H as <-. exact Logic.I.
+Qed.
+
+(* a text field and its encoding *)
+Definition enc_rel (b : bytes) (utf8 : bool) (tf : tfield) (f : field) : Prop :=
+  tfield_ok b tf = true /\ encode_field utf8 tf = Some f.
+
+Lemma tfield_part_event b utf8 tf f : enc_rel b utf8 tf f ->
+  part_event utf8 (fst (field_part f)) = tfield_event tf /\ part_ok b utf8 (field_part f) = true.
+Proof.
+  intros [Hok He]. destruct (tfield_ok_parts b tf Hok) as [H1 [H2 [H3 H4]]].
+  destruct (encode_field_inv utf8 tf f He) as [E1 [E2 [E3 E4]]].
+  destruct (decode_headers_text_proof utf8 (t_name tf) (t_filename tf) (t_extra tf)
+              (f_name f) (f_filename f) (f_extra f) H1 H2 H3 E1 E2 E3) as [P Hp].
+  split.
+  - unfold part_event, field_part. cbn [fst]. rewrite P. reflexivity.
+  - unfold part_ok, field_part. cbn [fst snd]. rewrite Hp, E4, H4. reflexivity.
+Qed.
+
+Lemma encode_fields_rel b utf8 tfs : forall fs, forallb (tfield_ok b) tfs = true ->
+  encode_fields utf8 tfs = Some fs -> Forall2 (enc_rel b utf8) tfs fs.
+Proof.
+  induction tfs as [|tf r IH]; intros fs Hok H; cbn [encode_fields forallb] in *.
+  - injection H as <-. constructor.
+  - destruct (encode_field utf8 tf) as [fb|] eqn:E; [|discriminate].
+    destruct (encode_fields utf8 r) as [rb|]; [|discriminate]. injection H as <-.
+    apply andb_true_iff in Hok as [Ho1 Ho2].
+    constructor; [split; assumption|apply IH; [exact Ho2|reflexivity]].
+Qed.
+
+Lemma text_parts b utf8 tfields fields : Forall2 (enc_rel b utf8) tfields fields ->
+  forallb (part_ok b utf8) (map field_part fields) = true /\
+  map (done utf8) (map field_part fields) = map tfield_done tfields /\
+  map (fun p => item_of utf8 (part_event utf8 (fst p)) (snd p)) (map field_part fields)
+  = map (tfield_item utf8) tfields /\
+  field_bytes (map (fun p => (part_event utf8 (fst p), snd p)) (map field_part fields)) = form_mem fields /\
+  length fields = length tfields.
+Proof.
+  induction 1 as [|tf f tfs fs Hr H2 IH]; [repeat split; reflexivity|].
+  destruct IH as (I1 & I2 & I3 & I4 & I5).
+  destruct (tfield_part_event b utf8 tf f Hr) as [E Hp].
+  destruct Hr as [Hok He]. destruct (encode_field_inv utf8 tf f He) as [_ [E2 [_ E4]]].
+  cbn [map forallb]. rewrite Hp, I1, I2, I3. repeat split.
+  - unfold done, tfield_done. rewrite E. cbn [field_part snd]. rewrite E4. reflexivity.
+  - unfold tfield_item. rewrite E. cbn [field_part snd]. rewrite E4. reflexivity.
+  - assert (E1 : forall e c r, field_bytes ((e, c) :: r) = (if is_field e then length c else 0) + field_bytes r)
+      by reflexivity.
+    assert (E3 : form_mem (f :: fs) =
+                 match f_filename f with None => length (f_content f) | Some _ => 0 end + form_mem fs) by reflexivity.
+    rewrite E1, E3, I4, E. f_equal. cbn [field_part snd].
+    pose proof (encode_opt_none utf8 _ _ E2) as Hn.
+    unfold tfield_event, rendered_event.
+    destruct (t_filename tf), (f_filename f); try contradiction; reflexivity.
+  - cbn [length]. rewrite I5. reflexivity.
+Qed.
+
+Lemma C01_text_core b utf8 pre fc tfields fields epi mp mm chunks :
+  no_crlf b && negb (has_sub (dashes b) pre) && (fc || match pre with [] => true | _ => false end) = true ->
+  Forall2 (enc_rel b utf8) tfields fields ->
+  concat chunks = form_body b pre fc fields epi ->
+  collect (all_events (run_chunks b utf8 new_decoder chunks)) None = map tfield_done tfields ++ [PEpi] /\
+  (limits_ok mp mm fields ->
+   parse_stream b utf8 mp mm chunks = HItems (map (tfield_item utf8) tfields)).
+Proof.
+  intros Hb Hrel Hbody.
+  destruct (text_parts b utf8 tfields fields Hrel) as (P1 & P2 & P3 & P4 & P5).
+  assert (Hwf : wf_form b utf8 pre fc (map field_part fields) = true).
+  { unfold wf_form. rewrite Hb, P1. reflexivity. }
+  unfold form_body in Hbody.
+  split.
+  - destruct (decode_framing_proof b utf8 pre fc _ epi chunks Hwf Hbody) as [E _]. rewrite E, P2. reflexivity.
+  - intros [Hlen Hmem].
+    rewrite (helper_exact_proof b utf8 pre fc _ epi mp mm chunks Hwf Hbody).
+    + rewrite P3. reflexivity.
+    + rewrite map_length. exact Hlen.
+    + unfold mem_ok. destruct mm as [m|]; [|exact Logic.I]. rewrite P4. exact Hmem.
+Qed.
+
+Theorem C01_main_text_proof : C01_main_text_statement.
+Proof.
+  intros b utf8 pre fc tfields fields epi mp mm chunks Hok Henc Hbody.
+  unfold tform_ok in Hok. apply andb_true_iff in Hok as [Hb Hf].
+  apply (C01_text_core b utf8 pre fc tfields fields epi mp mm chunks Hb); [|exact Hbody].
+  apply encode_fields_rel; assumption.
+Qed.
+
+(* ---- the text of a field ---- *)
+
+Theorem field_text_proof : field_text_statement.
+Proof.
+  intros f Hnone. unfold tfield_item, tfield_event, rendered_event. rewrite Hnone. cbn [item_of].
+  split; [|split].
+  - intros t Ht. f_equal. unfold safe_decode.
+    rewrite (utf8_decode_encode t (t_content f) (length (t_content f)) Ht (le_n _)). reflexivity.
+  - intros Hno. f_equal. unfold safe_decode.
+    destruct (utf8_decode (length (t_content f)) (t_content f)) as [t|] eqn:E; [|reflexivity].
+    exfalso. apply (Hno t). apply (utf8_encode_decode _ _ _ E).
+  - reflexivity.
+Qed.
+
+Theorem utf8_codec_proof : utf8_codec_statement.
+Proof.
+  split; [|split].
+  - intros s b H. apply (utf8_decode_encode s b (length b) H (le_n _)).
+  - intros b s H. apply (utf8_encode_decode _ _ _ H).
+  - intros s b H x Hx. pose proof (utf8_bytes_of s b H) as HF. rewrite Forall_forall in HF. apply HF, Hx.
+Qed.
+
+(* ---- the ASCII statement as an instance ---- *)
+
+Definition lift_field (f : field) : tfield :=
+  {| t_name := f_name f; t_filename := f_filename f; t_extra := f_extra f; t_content := f_content f |}.
+
+Lemma lift_rel b utf8 f : field_ok b f = true -> enc_rel b utf8 (lift_field f) f.
+Proof.
+  intros H. destruct (field_ok_parts b f H) as [H1 [H2 [H3 H4]]].
+  destruct (name_ok_tname _ H1) as [N1 N2].
+  destruct (extra_ok_textra utf8 _ H3) as [X1 X2].
+  assert (F1 : tfilename_ok (f_filename f) = true).
+  { destruct (f_filename f) as [s|]; [|reflexivity]. apply (name_ok_tname s H2). }
+  assert (F2 : encode_opt utf8 (f_filename f) = Some (f_filename f)).
+  { destruct (f_filename f) as [s|]; [|reflexivity]. cbn [encode_opt filename_ok] in *.
+    destruct (name_ok_tname s H2) as [_ A]. rewrite (enc_ascii utf8 s A). reflexivity. }
+  split.
+  - unfold tfield_ok, lift_field. cbn [t_name t_filename t_extra t_content]. rewrite N1, F1, X1, H4. reflexivity.
+  - unfold encode_field, lift_field. cbn [t_name t_filename t_extra t_content].
+    rewrite (enc_ascii utf8 _ N2), F2, X2. destruct f; reflexivity.
+Qed.
+
 Theorem C01_main_proof : C01_main_statement.
 Proof.
   intros b utf8 pre fc fields epi mp mm chunks Hok Hbody.
-  assert (Hwf := form_ok_wf b utf8 pre fc fields Hok).
-  assert (Hf := form_ok_fields b pre fc fields Hok).
-  unfold form_body in Hbody.
-  assert (Ev : map (fun p => (part_event utf8 (fst p), snd p)) (map field_part fields) =
-               map (fun f => (field_event f, f_content f)) fields).
-  { rewrite map_map. apply map_ext_in. intros f I.
-    destruct (field_part_event b utf8 f (Hf f I)) as [E _]. rewrite E. reflexivity. }
-  split.
-  - destruct (decode_framing_proof b utf8 pre fc _ epi chunks Hwf Hbody) as [E _]. rewrite E.
-    f_equal. rewrite map_map. apply map_ext_in. intros f I.
-    unfold done, field_done. destruct (field_part_event b utf8 f (Hf f I)) as [E2 _]. rewrite E2. reflexivity.
-  - intros [Hlen Hmem].
-    rewrite (helper_exact_proof b utf8 pre fc _ epi mp mm chunks Hwf Hbody).
-    + f_equal. rewrite map_map. apply map_ext_in. intros f I. unfold field_item.
-      destruct (field_part_event b utf8 f (Hf f I)) as [E2 _]. rewrite E2. reflexivity.
-    + rewrite map_length. exact Hlen.
-    + rewrite Ev. unfold mem_ok. destruct mm as [m|]; [|exact Logic.I].
-      rewrite form_mem_field_bytes. exact Hmem.
+  unfold form_ok in Hok. apply andb_true_iff in Hok as [Hb Hf].
+  assert (Hrel : Forall2 (enc_rel b utf8) (map lift_field fields) fields).
+  { rewrite forallb_forall in Hf. clear Hbody. induction fields as [|f r IH]; cbn [map]; constructor.
+    - apply lift_rel, Hf. left. reflexivity.
+    - apply IH. intros x Hx. apply Hf. right. exact Hx. }
+  destruct (C01_text_core b utf8 pre fc _ fields epi mp mm chunks Hb Hrel Hbody) as [E1 E2].
+  rewrite map_map in E1, E2. split; [exact E1|exact E2].
+Qed.
+
+(* ---- the full statement of Spec.v ---- *)
+
+Lemma ascii_extra_rel utf8 extra : forallb extra_ok extra = true ->
+  forallb textra_ok extra = true /\ encode_extra utf8 extra = Some extra.
+Proof. apply extra_ok_textra. Qed.
+
+Theorem C01_full_proof : C01_full.
+Proof.
+  intros b utf8 pre fc epi texts fields mp mm chunks Hall Hb Hpre Hfc Hbody Hlim.
+  assert (Hb3 : no_crlf b && negb (has_sub (dashes b) pre) && (fc || match pre with [] => true | _ => false end) = true).
+  { rewrite Hb, Hpre. cbn [andb negb]. destruct Hfc as [->| ->]; [reflexivity|apply orb_true_r]. }
+  (* the text fields *)
+  assert (Hex : exists tfields,
+             Forall2 (enc_rel b utf8) tfields fields /\
+             Forall2 (fun t tf => t_name tf = fst t /\ t_filename tf = snd t) texts tfields /\
+             Forall2 (fun f tf => t_content tf = f_content f) fields tfields).
+  { clear Hbody Hlim. induction Hall as [|t f texts fields (Ht1 & Ht2 & Ht3 & Ht4 & Ht5) Hall IH].
+    - exists []. repeat split; constructor.
+    - destruct IH as (tfs & I1 & I2 & I3).
+      exists ({| t_name := fst t; t_filename := snd t; t_extra := f_extra f; t_content := f_content f |} :: tfs).
+      destruct (ascii_extra_rel utf8 _ Ht4) as [X1 X2].
+      split; [|split]; constructor; try assumption; try (cbn; auto; fail).
+      split.
+      + unfold tfield_ok. cbn [t_name t_filename t_extra t_content]. unfold tname_ok. rewrite Ht1, X1, Ht5. cbn [andb negb].
+        destruct (snd t) as [ft|], (f_filename f) as [fb|]; try contradiction; [|reflexivity].
+        cbn [tfilename_ok]. unfold tname_ok. destruct Ht3 as [Hc _]. rewrite Hc. reflexivity.
+      + unfold encode_field. cbn [t_name t_filename t_extra t_content]. rewrite Ht2, X2.
+        destruct (snd t) as [ft|], (f_filename f) as [fb|] eqn:Ef; try contradiction; cbn [encode_opt].
+        * destruct Ht3 as [_ He]. rewrite He. destruct f; cbn in *; subst; reflexivity.
+        * destruct f; cbn in *; subst; reflexivity. }
+  destruct Hex as (tfields & Hrel & Hnames & Hcont).
+  destruct (C01_text_core b utf8 pre fc tfields fields epi mp mm chunks Hb3 Hrel Hbody) as [_ E].
+  exists (map (tfield_item utf8) tfields). split; [apply E, Hlim|]. split.
+  - clear -Hnames. induction Hnames as [|t tf texts tfs [H1 H2] Hn IH]; cbn [map]; constructor; [|exact IH].
+    unfold tfield_item, tfield_event, rendered_event. destruct t as [n o]. cbn [fst snd] in *. rewrite H1, H2.
+    destruct o; cbn [item_of]; auto.
+  - clear -Hcont. induction Hcont as [|f tf fs tfs H1 Hn IH]; cbn [map]; constructor; [|exact IH].
+    unfold tfield_item, tfield_event, rendered_event. rewrite H1.
+    destruct (t_filename tf); cbn [item_of]; reflexivity.
 Qed.
